@@ -177,6 +177,11 @@ func (e *Engine) otterObj(s *State) *MapObj {
 }
 
 func otterSet(e *Engine, s *State, k, v Value, ttl *Term, ifAbsent bool) Value {
+	if s.gterm == nil {
+		s.gterm = map[string]*Term{}
+	}
+	s.gterm["otter.lastttl"] = ttl
+	s.ghost["otter.sets"]++
 	mo := e.otterObj(s)
 	for i, en := range mo.Entries {
 		if e.cond(s, e.valueEq(s, en.K, k)) {
